@@ -5,7 +5,7 @@ from common import run_tlc, Scratch, Infra, log
 
 MC_CFG = """CONSTANTS
   Keys = {%(keys)s}
-  Vals = {1, 2}
+  Vals = {%(vals)s}
   Levels = %(levels)d
   Order = "%(order)s"
 SPECIFICATION Spec
@@ -17,7 +17,7 @@ CHECK_DEADLOCK FALSE
 """
 GEN_CFG = """CONSTANTS
   Keys = {%(keys)s}
-  Vals = {1, 2}
+  Vals = {%(vals)s}
   Levels = %(levels)d
   Order = "%(order)s"
   MaxHist = %(maxhist)d
@@ -27,6 +27,9 @@ NEXT Next
 INVARIANT Emit
 CHECK_DEADLOCK FALSE
 """
+# the values put: the zero value of the value type is among them (a live key whose value is the zero value is still live: it is
+# listed in the printed form, and a later Put of another value overwrites it) - with one other value in the quick tier, two in the thorough one
+VALS = {"quick": "0, 1", "thorough": "0, 1, 2"}
 TRACE_CFG = """INIT Init
 NEXT Next
 INVARIANT Judge
@@ -48,7 +51,7 @@ def check(run, replay=None):
     if thorough:
         mcs = [dict(keys="1,2,3,4,5", levels=3, order="asc"), dict(keys="1,2,3,4", levels=4, order="desc")]
     for c in mcs:
-        r = run_tlc("SkipListMC", MC_CFG % c, timeout=1500)
+        r = run_tlc("SkipListMC", MC_CFG % dict(c, vals=VALS[run.tier]), timeout=1500)
         run.add_mc("SkipListMC", r, c)
         if r.violated:
             raise Infra("model error: SkipListMC violates %s with %s (the I-spec no longer refines the P-spec)" % (r.violated, c))
@@ -62,7 +65,7 @@ def check(run, replay=None):
                 dict(keys="1,2,3", levels=2, order="asc", maxhist=5, view=NV), dict(keys="1,2,3", levels=3, order="desc", maxhist=4, view=NV)]
     with Scratch() as d:
         for gi, c in enumerate(gens):
-            r = run_tlc("SkipListGen", GEN_CFG % c, workers=1, timeout=1500)
+            r = run_tlc("SkipListGen", GEN_CFG % dict(c, vals=VALS[run.tier]), workers=1, timeout=1500)
             cases = r.json_prints("case")
             if c["maxhist"]:
                 # the prefixes of a history are cases of their own: keep the full-length ones and a sample of the rest
@@ -200,7 +203,7 @@ def do_replay(run, binp, path):
         c = pl["gen"]
         f = pl["finding"]
         # a one-case replay: the history, with the failing transition as its only successor
-        r = run_tlc("SkipListGen", GEN_CFG % c, workers=1, timeout=900)
+        r = run_tlc("SkipListGen", GEN_CFG % dict(c, vals=VALS["thorough"]), workers=1, timeout=900)       # (a superset of either tier's values)
         cases = [cs for cs in r.json_prints("case") if cs["hist"] == f["hist"]]
         inp, outp = os.path.join(d, "c.jsonl"), os.path.join(d, "r.jsonl")
         with open(inp, "w") as fh:
